@@ -11,7 +11,26 @@ from harness.core import Machinery
 
 JVM = {'JAVA_TOOL_OPTIONS': '-Xss32m'}     # deep (but finite) recursion of the day-by-day operators
 CPU_LIMIT = 3.0       # virtual CPU seconds for one public call (calls take < 1 ms when they terminate)
-CAP = 200             # stop replaying once this many violations are recorded (the verdict is settled)
+PER_SIG = 25          # violations listed per (clause, op); further ones of the same kind are only counted
+MAX_HUNG = 20         # stop replaying after this many calls that did not terminate (the verdict is settled)
+_sig = {}
+_hung = [0]
+
+
+def record(ctx, clause, case, detail):
+    """ctx.violation, listing at most PER_SIG cases of one kind so that one defect cannot crowd out another"""
+    if isinstance(detail, dict) and isinstance(detail.get('observed'), dict) and detail['observed'].get('cls') == 'DidNotTerminate':
+        _hung[0] += 1
+    k = (clause, case.get('op'))
+    _sig[k] = _sig.get(k, 0) + 1
+    if _sig[k] <= PER_SIG:
+        ctx.violation(clause, case, detail)
+    else:
+        ctx.extra['further_violations_not_listed'] = ctx.extra.get('further_violations_not_listed', 0) + 1
+
+
+def settled(ctx):
+    return _hung[0] >= MAX_HUNG
 
 
 class _Timeout(BaseException):
@@ -147,8 +166,8 @@ def case_of(cfg, q, **more):
 def s2c_arith(ctx, lines):
     k = 0
     for line in lines:
-        if len(ctx.violations) >= CAP:
-            ctx.assumptions.append('arithmetic replay stopped early after %d violations' % len(ctx.violations))
+        if settled(ctx):
+            ctx.assumptions.append('arithmetic replay stopped early: %d calls did not terminate' % _hung[0])
             return
         cfg, t = line['cfg'], line['t']
         reg = Registry()
@@ -157,19 +176,19 @@ def s2c_arith(ctx, lines):
             try:
                 cal = make(cfg, reg.key('x'), how)
             except Exception as e:
-                ctx.violation('construct', {'op': 'construct', 'kind': 's2c', 'how': how, 'cfg': cfg}, {'observed': type(e).__name__})
+                record(ctx, 'construct', {'op': 'construct', 'kind': 's2c', 'how': how, 'cfg': cfg}, {'observed': type(e).__name__})
                 continue
             for op, n, u, a, want in line['cases']:
                 q = qdict(op, t, n, u, a)
                 out = ask(cal, q)
                 ctx.evals += 1
                 if not any(out == {'kind': 'val', 'v': w} for w in want):
-                    ctx.violation(op, case_of(cfg, q, how=how, kind='s2c'), {'expected_one_of': want, 'observed': out})
+                    record(ctx, op, case_of(cfg, q, how=how, kind='s2c'), {'expected_one_of': want, 'observed': out})
                     if out.get('cls') == 'DidNotTerminate':
                         break
             after = holidays_of(cal)
             if after != {'kind': 'val', 'v': cfg['hol']}:
-                ctx.violation('registry_reflects_holidays', {'op': 'fetch', 'kind': 's2c', 'how': how, 'cfg': cfg},
+                record(ctx, 'registry_reflects_holidays', {'op': 'fetch', 'kind': 's2c', 'how': how, 'cfg': cfg},
                               {'expected': cfg['hol'], 'observed': after})
         finally:
             reg.clean()
@@ -243,7 +262,7 @@ def replay_history(ctx, hist):
                     case.update({'query': ev['q']['op'], 'n': ev['q']['n'], 'path': 'table' if abs(ev['q']['n']) > 1 else 'loop'})
                 if repr(case['history']) not in _reported:          # the same failing history is reported once
                     _reported.add(repr(case['history']))
-                    ctx.violation(clause, case, {'expected': ev['want'], 'observed': got})
+                    record(ctx, clause, case, {'expected': ev['want'], 'observed': got})
                 return False
         return True
     finally:
@@ -260,8 +279,8 @@ def s2c_registry(ctx, emitted):
         if repr(hist) in seen:
             continue
         seen.add(repr(hist))
-        if len(ctx.violations) >= CAP:
-            ctx.assumptions.append('history replay stopped early after %d violations' % len(ctx.violations))
+        if settled(ctx):
+            ctx.assumptions.append('history replay stopped early: %d calls did not terminate' % _hung[0])
             return
         replay_history(ctx, hist)
         ctx.traces += 1
@@ -404,14 +423,14 @@ def judge(ctx, obs, bad):
     for line, clause in bad:
         o = obs[line - 1]
         name, _, pos = clause.partition(':')
-        if name in ('out_of_domain', 'bad_config'):
-            raise Machinery('the C2S driver left the claimed domain: line %d %s' % (line, clause))
+        if name in ('out_of_domain', 'bad_config', 'spec_monthno'):
+            raise Machinery('the C2S driver left the claimed domain, or the specification failed its self-check: line %d %s' % (line, clause))
         e = o['qs'][int(pos) - 1]
         if name == 'registry_reflects_holidays':
             case = {'op': 'fetch', 'kind': 'c2s', 'how': o['how'], 'decoy': o['decoy'], 'cfg': o['cfg']}
         else:
             case = case_of(o['cfg'], e['q'], how=o['how'], decoy=o['decoy'], kind='c2s')
-        ctx.violation(name, case, {'observed': e['out'], 'position': int(pos)})
+        record(ctx, name, case, {'observed': e['out'], 'position': int(pos)})
 
 
 def c2s(ctx, ncal, nq):
@@ -420,6 +439,8 @@ def c2s(ctx, ncal, nq):
         cfg, ends = rand_calendar(ctx.rng)
         qs = rand_queries(ctx.rng, cfg, ends, nq)
         obs.append(observe_calendar(ctx.rng, cfg, qs, i))
+        if sum(e['out'].get('cls') == 'DidNotTerminate' for o in obs for e in o['qs']) >= MAX_HUNG:
+            break                                             # enough evidence; the log so far is still judged by TLC
     nqs = sum(len(o['qs']) for o in obs)
     ctx.evals += nqs
     bad = ctx.validate('Trace_Calendar', obs, env=JVM)
